@@ -15,6 +15,8 @@
 //	         (header kind=conc) and n > 0 the next n entries are applied between the two steps
 //	         of concurrentSave (after prepare released s.mu, before the file is written)
 //	RESTART  fresh StateMachine: recover from the most recent snapshot, replay the log above it
+//	Q c      a client API call that does not reach the log: every exported session accessor of
+//	         the real StateMachine (found by reflection) is called, with client id c
 //	CAP      print the default rsm.LRUMaxSessionCount of the binary (cross-check of the generated constant)
 package main
 
@@ -34,7 +36,7 @@ type op struct {
 	n                         int // INSTALL: length of the lag window (entries)
 }
 
-func parseCase(line string) (id string, cap uint64, conc bool, ops []op) {
+func parseCase(line string) (id string, cap uint64, conc, nonVoting bool, ops []op) {
 	head, body := line, ""
 	if i := strings.Index(line, " | "); i >= 0 {
 		head, body = line[:i], line[i+3:]
@@ -53,6 +55,9 @@ func parseCase(line string) (id string, cap uint64, conc bool, ops []op) {
 		if h == "kind=conc" {
 			conc = true
 		}
+		if h == "role=nonvoting" {
+			nonVoting = true
+		}
 	}
 	for _, t := range strings.Split(body, " ; ") {
 		f := strings.Fields(t)
@@ -60,6 +65,10 @@ func parseCase(line string) (id string, cap uint64, conc bool, ops []op) {
 			continue
 		}
 		switch f[0] {
+		case "Q":
+			v, err := strconv.ParseUint(f[1], 10, 64)
+			must(err)
+			ops = append(ops, op{kind: "Q", client: v})
 		case "E":
 			u := func(s string) uint64 { v, err := strconv.ParseUint(s, 10, 64); must(err); return v }
 			ops = append(ops, op{kind: "E", client: u(f[1]), series: u(f[2]), responded: u(f[3]), cmd: vh.UnHex(f[4])})
@@ -143,14 +152,14 @@ func runCase(line string, obs *vh.LineWriter, st *vh.Stats) {
 		runClientCase(line, obs, st)
 		return
 	}
-	id, cap, conc, ops := parseCase(line)
+	id, cap, conc, nonVoting, ops := parseCase(line)
 	if cap == 0 {
 		obs.Printf("%s BADCAP\n", id)
 		return
 	}
 	fs := newFS()
-	r := newReplica(conc, cap, fs, "a")
-	twin := newReplica(conc, cap, newFS(), "t") // never snapshots: monitor for snapshot equivalence
+	r := newReplica(conc, nonVoting, cap, fs, "a")
+	twin := newReplica(conc, false, cap, newFS(), "t") // always a full member // never snapshots: monitor for snapshot equivalence
 	viol := func(format string, a ...interface{}) { st.Violation(id, fmt.Sprintf(format, a...)) }
 
 	epoch := map[uint64]int{}
@@ -411,6 +420,24 @@ func runCase(line string, obs *vh.LineWriter, st *vh.Stats) {
 			if showSessions(c0, before) != showSessions(c1, after) {
 				viol("saving the sessions changed the table: %s -> %s", showSessions(c0, before), showSessions(c1, after))
 			}
+		case "Q":
+			st.Count("op.Q")
+			c0, before := r.dump()
+			acc0 := r.usm.acc
+			names, p := r.nonLogLookup(o.client)
+			c1, after := r.dump()
+			for _, n := range names {
+				st.Count("accessor." + n)
+			}
+			if p != "" {
+				obs.Printf("%s %d Q panic\n", id, k)
+				viol("op %d: a session accessor panicked: %s", k, p)
+				continue
+			}
+			obs.Printf("%s %d Q ok\n", id, k)
+			if showSessions(c0, before) != showSessions(c1, after) || acc0 != r.usm.acc {
+				viol("non-log lookup: calling the session accessors %v for client %d outside the apply path changed the session table (LRU order is no longer a function of the log): %s -> %s", names, o.client, showSessions(c0, before), showSessions(c1, after))
+			}
 		case "D":
 			st.Count("op.D")
 			c, d := r.dump()
@@ -444,6 +471,9 @@ func runCase(line string, obs *vh.LineWriter, st *vh.Stats) {
 	st.Count(fmt.Sprintf("case.saves_with_entries_in_flight<=%d", bucket(windowed)))
 	if conc {
 		st.Count("case.kind=conc")
+	}
+	if nonVoting {
+		st.Count("case.role=nonvoting")
 	}
 	nontrivial := cachedHits > 0 && rejectedHits > 0 && ignoredHits > 0 && applies > 0
 	body := line
